@@ -182,6 +182,7 @@ type Result struct {
 
 // Sched is the state of one execution.
 type Sched struct {
+	atomicVC VC // see AtomicFence
 	threads  []*Thread
 	running  *Thread
 	prefix   []Choice
@@ -743,6 +744,90 @@ func After(d time.Duration) <-chan time.Time {
 	tm := &vtimer{at: s.now + d, ch: make(chan time.Time, 1), seq: len(s.timers)}
 	s.timers = append(s.timers, tm)
 	return tm.ch
+}
+
+// Timer is the virtual time.Timer (time.NewTimer / time.AfterFunc are rewritten to the constructors below, and the
+// type name time.Timer to this type).
+type Timer struct {
+	C      <-chan time.Time
+	ch     chan time.Time
+	tm     *vtimer
+	stop   chan struct{} // AfterFunc: closed by Stop to release the helper thread
+	f      func()
+	real   *time.Timer // outside an execution
+	closed bool
+}
+
+// NewTimer is the virtual time.NewTimer.
+func NewTimer(d time.Duration) *Timer {
+	s := sched()
+	if s == nil {
+		rt := time.NewTimer(d)
+		return &Timer{C: rt.C, real: rt}
+	}
+	ch := make(chan time.Time, 1)
+	tm := &vtimer{at: s.now + d, ch: ch, seq: len(s.timers)}
+	s.timers = append(s.timers, tm)
+	return &Timer{C: ch, ch: ch, tm: tm}
+}
+
+// AfterFunc is the virtual time.AfterFunc: f runs in a thread of its own when the timer fires.
+func AfterFunc(d time.Duration, f func()) *Timer {
+	s := sched()
+	if s == nil {
+		return &Timer{real: time.AfterFunc(d, f)}
+	}
+	t := NewTimer(d)
+	t.f, t.stop = f, make(chan struct{}, 1)
+	t.spawn()
+	return t
+}
+
+func (t *Timer) spawn() {
+	ch, stop, f := t.ch, t.stop, t.f
+	GoNamed("afterfunc", func() {
+		if Select(false, (<-chan time.Time)(ch), (<-chan struct{})(stop)) == 0 {
+			RecvNow((<-chan time.Time)(ch))
+			f()
+		}
+	})
+}
+
+// Stop prevents the timer from firing; it reports whether the timer was still pending.
+func (t *Timer) Stop() bool {
+	if t.real != nil {
+		return t.real.Stop()
+	}
+	s := sched()
+	if s == nil || t.tm == nil {
+		return false
+	}
+	active := !t.tm.fired
+	t.tm.fired = true // a cancelled timer is skipped like a fired one; nothing is sent
+	if t.stop != nil && !t.closed {
+		t.closed = true
+		Close((chan<- struct{})(t.stop))
+	}
+	return active
+}
+
+// Reset re-arms the timer.
+func (t *Timer) Reset(d time.Duration) bool {
+	if t.real != nil {
+		return t.real.Reset(d)
+	}
+	s := sched()
+	if s == nil {
+		return false
+	}
+	active := t.Stop()
+	t.tm = &vtimer{at: s.now + d, ch: t.ch, seq: len(s.timers)}
+	s.timers = append(s.timers, t.tm)
+	if t.f != nil {
+		t.stop, t.closed = make(chan struct{}, 1), false
+		t.spawn()
+	}
+	return active
 }
 
 // Sleep is the virtual time.Sleep.
